@@ -281,6 +281,20 @@ P("C19", "allocation failure propagates cleanly and leaves every object destruct
               "thorough": "every allocation index of every (operation, storage-mode combination) of the table, 24 random fillings each"},
   dbits={"quick": 20, "thorough": 22})
 
+P("C20", "concurrent use needs no locking", "threads",
+  runs=[{"build": "tsan", "workers": 4}],
+  level_text=("runtime monitoring of schedules: 4 or 16 threads, released together behind a barrier, each run a seeded program of thousands of operations mixing every const operation on 8 shared immutable strings and 4 shared "
+              "buffers (search, compare, hash, slicing, split, replace, case mapping, conversions, formatting, stream insertion, codecs, copies, concatenation) with arbitrary operations on thread-local objects (integer and "
+              "floating-point formatting incl. renderings beyond the 64-byte scratch buffers, from_int/from_double, parsing, conversions, hex/base64 codecs, string_stream, buffers, iostream/stdio sinks), under "
+              "ThreadSanitizer; every report is a violation, and each thread's result digest is compared with the same program run alone afterwards. The run reports how many operation pairs actually overlapped in "
+              "time on the same shared object / in the same code path"),
+  technique="ThreadSanitizer race detection over stress schedules + per-thread result digests compared with a sequential run; overlap measured from thread-local timestamps",
+  rule=("a case is one concurrent round (thread count, per-thread seeds, operations per thread); distinct by (seeds, thread count); evaluations count operations executed concurrently; nothing trivial"),
+  assumptions=["TSan reports only races on paths the threads actually execute concurrently within its history window; absence of a report is not absence of a race on untested pairs",
+               "libstdc++/glibc are not TSan-instrumented; only accesses from code compiled into the harness (the header-only library, templates) are observed",
+               "the sequential reference run happens after the concurrent round, so lazily initialised state would be initialised under concurrency first"],
+  dbits={"quick": 16, "thorough": 18})
+
 _PENDING = "check not registered yet in this revision of /verif (harness under construction; nothing is claimed)"
 for _p in ["C%02d" % i for i in range(1, 21)]:
     if _p not in PROPS:
